@@ -11,6 +11,7 @@ pub mod kinds;
 
 pub mod h_basic;
 pub mod h_greedy;
+pub mod h_hide;
 pub mod h_leaf;
 pub mod h_msg;
 
@@ -24,6 +25,7 @@ pub fn all_harnesses() -> Vec<(&'static str, fn())> {
     let mut v: Vec<(&'static str, fn())> = Vec::new();
     v.extend_from_slice(h_basic::HARNESSES);
     v.extend_from_slice(h_greedy::HARNESSES);
+    v.extend_from_slice(h_hide::HARNESSES);
     v.extend_from_slice(h_leaf::HARNESSES);
     v.extend_from_slice(h_msg::HARNESSES);
     v
